@@ -236,7 +236,9 @@ def oracle_c12(lines: list[str], answers: list[str]) -> list[tuple[str, str]]:
             same = all(o[k] == prev[k] for k in ("ex", "qu", "inst", "tr", "sim", "run", "sys", "paused")) and not o["ev"]
             if known and produced and not offered:
                 if o["reply"] == "ok":
-                    out.append((f"unoffered-{f[0]}-accepted", f"op {n}: {ln!r} on item {t} answered ok"))
+                    # which branch served it: the command's (it had started) or the node's
+                    site = "uod-command" if "U" in t["marks"] else "node"
+                    out.append((f"unoffered-{f[0]}-accepted:{site}", f"op {n}: {ln!r} on item {t} answered ok"))
                 elif not same:
                     out.append((f"rejected-{f[0]}-changed-state", f"op {n}: {ln!r}"))
             if not known and not same:
